@@ -60,7 +60,9 @@ def write_dataset(root, case):
         for k, (chan, cal, ext) in enumerate(((case["lidar_channel"], 0, "pcd.bin"), ("CAM_FRONT", 1, "jpg"))):
             sd = 2 * i + k
             T["ego_pose"].append(dict(token=tok("ego", sd), timestamp=s["t"], rotation=quat(*s["ego"][2:]), translation=[s["ego"][0], s["ego"][1], 0.0]))
-            T["sample_data"].append(dict(token=tok("sdt", sd), sample_token=tok("smp", i), ego_pose_token=tok("ego", sd), calibrated_sensor_token=tok("cal", cal), timestamp=s["t"],
+            # a sensor sweep is stamped close to, not exactly at, its sample's time stamp (nuScenes schema)
+            T["sample_data"].append(dict(token=tok("sdt", sd), sample_token=tok("smp", i), ego_pose_token=tok("ego", sd), calibrated_sensor_token=tok("cal", cal),
+                                         timestamp=s["t"] + (1234 if k == 0 else -777) * (1 + i % 3),
                                          fileformat=ext.split(".")[0], is_key_frame=True, height=0 if k == 0 else 600, width=0 if k == 0 else 1000,
                                          filename=f"data/{chan}/{i}.{ext}", prev=tok("sdt", sd - 2) if i else "", next=tok("sdt", sd + 2) if i + 1 < n else "",
                                          sensor_modality="lidar" if k == 0 else "camera", channel=chan))
